@@ -105,7 +105,7 @@ def check_and_replay(res, name, c, ov, invariants, properties, own, probe, depth
     phased = c['Phased'] == 'TRUE'
 
     def factory(shift):
-        return lambda: ra.ResourcesAdapter(desper, probe=probe, depth=depth, kind_shift=shift)
+        return lambda: ra.ResourcesAdapter(desper, probe=probe, depth=depth, kind_shift=shift, keep_snap=int(c['KeepSnap']))
 
     for k in shifts:
         st = replay.run_paths(g, factory(k), tour_paths(g), own=own, chunk=50)
@@ -187,12 +187,16 @@ def replay_file(res, path, configs):
     labels = [(n, _untuple(a)) for n, a in blob['detail']['labels']]
     init = blob['detail'].get('init_state')
     start = next((i for i in g.init if tla.to_json(g.states[i]) == init), g.init[0])
-    st = replay.Stats()
-    adapter = ra.ResourcesAdapter(desper, probe=probe, depth=int(c['MaxDepth']), kind_shift=shift)
-    v = replay.walk(g, adapter, labels, own, st, start=start)
-    if v:
-        st.violations.append(v)
-        st.n_violations = 1
+    # which handles had a false truth value in the failing behaviour is not in the file: each mix in turn
+    for mix in range(ra.N_MIXES):
+        st = replay.Stats()
+        adapter = ra.ResourcesAdapter(desper, probe=probe, depth=int(c['MaxDepth']), kind_shift=shift,
+                                      keep_snap=int(c['KeepSnap']), mix=mix)
+        v = replay.walk(g, adapter, labels, own, st, start=start)
+        if v:
+            st.violations.append(v)
+            st.n_violations = 1
+            break
     res.absorb(st, '%s:replay:kinds+%d' % (name, shift), g)
 
 
